@@ -96,3 +96,15 @@ package tls
 //@   ensures applied: ret == nil && !(old(uconn.clientHelloSpec == nil) && id.Client == helloCustom) ==> called(ApplyPreset, 0) && callres(ApplyPreset, 0) == nil
 //@   ensures applied_spec: called(ApplyPreset, 0) ==> callarg(ApplyPreset, 0, 1) != nil
 //@   ensures custom: old(uconn.clientHelloSpec == nil) && id.Client == helloCustom ==> ret == nil && !called(ApplyPreset, 0)
+
+// (*Conn).clientSessionCacheKey (C19: a cached session is never offered for a different server name): the key is
+// the configured ServerName as it is (no normalisation: two different names never share a key), the peer address
+// only when no name is configured.
+//@ func (*Conn).clientSessionCacheKey
+//@   property C19 C14
+//@   requires c != nil && c.config != nil
+//@   ensures byname: old(len(c.config.ServerName) > 0) ==> ret == old(c.config.ServerName) && !called(RemoteAddr, 0)
+//@   ensures noconn: old(len(c.config.ServerName) == 0 && isnil(c.conn)) ==> ret == ""
+//@   ensures byaddr: old(len(c.config.ServerName) == 0 && !isnil(c.conn)) ==> called(RemoteAddr, 0)
+//@   at after call RemoteAddr#0: assume addr_nonnil: res0 != nil
+//@   note addr_nonnil: net.Conn implementations return a non-nil address (listed assumption; a nil Addr would panic in .String())
